@@ -91,6 +91,8 @@ def build_table():
 
     T['sift'] = lambda r, s: (S.sift, (ro(sig(r)),), dict(max_imfs=3, **optsets(s)), True)
     T['mask_sift'] = lambda r, s: (S.mask_sift, (ro(sig(r)),), dict(max_imfs=3, mask_freqs=ro(np.array([.3, .1, .04])), mask_amp=ro(np.array([1., .5, .5])), **optsets(s)), True)
+    for _mode in ('ratio_sig', 'abs'):
+        T['mask_sift:' + _mode] = (lambda mm: (lambda r, s: (S.mask_sift, (ro(sig(r)),), dict(max_imfs=3, mask_freqs=ro(np.array([.3, .1, .04])), mask_amp=ro(np.array([1., .5, .5])), mask_amp_mode=mm, **optsets(s)), True)))(_mode)
     T['mask_sift_zc'] = lambda r, s: (S.mask_sift, (ro(sig(r)),), dict(max_imfs=2, **optsets(s)), True)
     T['ensemble_sift'] = lambda r, s: (S.ensemble_sift, (ro(sig(r)),), dict(max_imfs=2, nensembles=2, **optsets(s)), 'seeded')
     T['complete_ensemble_sift'] = lambda r, s: (S.complete_ensemble_sift, (ro(sig(r)),), dict(max_imfs=2, nensembles=2, **optsets(s)), 'seeded')
@@ -330,6 +332,14 @@ def layout_checks(ctx, rng, shared, round_seed):
         'phase_align': lambda: C.phase_align(ro(ph), ro(vals[:-1])),
         'phase_align(cycles)': lambda: C.phase_align(ro(ph), ro(vals), cycles=ro(lab[:-1])),
         'bin_by_phase': lambda: C.bin_by_phase(ro(ph), ro(vals[:-1])),
+        'bin_by_phase(longer)': lambda: C.bin_by_phase(ro(ph), ro(np.r_[vals, vals[:3]])),
+        'get_cycle_stat(longer)': lambda: C.get_cycle_stat(ro(lab), ro(np.r_[vals, vals[:5]])),
+        'get_cycle_stat(Cycles,longer)': lambda: C.get_cycle_stat(C.Cycles(ph.copy()), ro(np.r_[vals, vals[:5]])),
+        'get_cycle_stat(Cycles,shorter)': lambda: C.get_cycle_stat(C.Cycles(ph.copy()), ro(vals[:-4])),
+        'phase_align(Cycles,longer)': lambda: C.phase_align(ro(np.r_[ph, ph[:7]]), ro(np.r_[vals, vals[:7]]), cycles=C.Cycles(ph.copy())),
+        'phase_align(longer x)': lambda: C.phase_align(ro(ph), ro(np.r_[vals, vals[:2]])),
+        'get_control_points(Cycles,longer)': lambda: C.get_control_points(ro(np.r_[np.sin(ph), 0., 0., 0.]), C.Cycles(ph.copy())),
+        'hilberthuang(longer)': lambda: SP.hilberthuang(ro(f60), ro(np.r_[a60, a60[:1]]), e),
     }
     for name, f in mism.items():
         case = {'kind': 'mismatch', 'routine': name, 'round_seed': round_seed}
